@@ -11,6 +11,10 @@
 (*                      inbox]                                             *)
 (*   subs/psubs : channels / patterns subscribed; inbox : push frames the  *)
 (*                server owes this client, in order (C14)                  *)
+(*   blocked : NotBlocked | [k |-> "yes", keys, left, db, to (ms, 0 = for   *)
+(*             ever), sent, got (observer times of request / eventual     *)
+(*             reply), ord (blocking order), r (the reply the client       *)
+(*             eventually received)]   (C13)                               *)
 (*   closing : the client has closed its socket but the server may not     *)
 (*             have noticed yet (it must after one full event-loop pass)   *)
 (*   watch : <<db, key>> -> "clean" | "may" | "must"   (dirtiness since    *)
@@ -23,10 +27,11 @@ NDB == 16
 DBs == 0..(NDB - 1)
 NoPass == [k |-> "nopass"]
 NoObs == [t |-> "noobs"]
+NotBlocked == [k |-> "no"]
 
 NewConn(S) == [db |-> 0, authed |-> (S.pass = NoPass), multi |-> FALSE, queue |-> <<>>, qerr |-> FALSE,
-               watch |-> <<>>, subs |-> {}, psubs |-> {}, inbox |-> <<>>, closing |-> FALSE]
-InitS == [dbs |-> [d \in DBs |-> EmptyK], conns |-> <<>>, pass |-> NoPass]
+               watch |-> <<>>, subs |-> {}, psubs |-> {}, inbox |-> <<>>, closing |-> FALSE, blocked |-> NotBlocked]
+InitS == [dbs |-> [d \in DBs |-> EmptyK], conns |-> <<>>, pass |-> NoPass, bseq |-> 0]
 
 SOut(r, S) == {[r |-> r, S |-> S, dv |-> {}]}
 SFail(S) == SOut(RErr, S)
@@ -135,6 +140,48 @@ CmdPUBLISH(S, a) ==
                   ELSE [S.conns[x] EXCEPT !.inbox = Append(@, fr[x])]]])    \* one bag per publish
 
 -----------------------------------------------------------------------------
+(* BLOCKING POPS (C13).  BLPOP/BRPOP key [key ...] timeout                 *)
+(* timeout: decimal seconds >= 0, fractions allowed (exact in ms)          *)
+TimeoutKind(b) == IF IsNaNStr(b) \/ IsInfStr(b) THEN "bad"
+                  ELSE IF InDomain(b) THEN (IF IsNeg(b) /\ ScaledOf(b) # 0 THEN "bad" ELSE "ok")
+                  ELSE IF IsDecimal(Body(b)) THEN "unspec" ELSE "bad"
+
+FirstReady(K, keys) == \* index of the first key holding a list with elements, 0 if none
+  LET ready == {i \in 1..Len(keys) : IsT(K, keys[i], "list")} IN IF ready = {} THEN 0 ELSE MinOf(ready)
+FirstWrong(K, keys) ==
+  LET w == {i \in 1..Len(keys) : WrongT(K, keys[i], "list")} IN IF w = {} THEN 0 ELSE MinOf(w)
+
+PopFrom(K, k, left) ==
+  LET v == K[k].v
+      x == IF left THEN Head(v) ELSE v[Len(v)]
+      nv == IF left THEN Tail(v) ELSE Sub(v, 1, Len(v) - 1)
+  IN [x |-> x, K |-> PutOrDel(K, k, "list", nv, nv = <<>>)]
+
+CmdBPOP(S, c, a, tm, obs, left, inTxn) ==
+  IF Len(a) < 3 THEN SFail(S)
+  ELSE LET tk == TimeoutKind(a[Len(a)]) IN
+    IF tk = "bad" THEN SFail(S)
+    ELSE IF tk = "unspec" THEN SOut(RAny, S)
+    ELSE LET d == S.conns[c].db
+             K == S.dbs[d]
+             keys == Sub(a, 2, Len(a) - 1)
+             fr == FirstReady(K, keys)
+             fw == FirstWrong(K, keys)
+         IN IF fw # 0 /\ (fr = 0 \/ fw < fr) THEN SFail(S)
+            ELSE IF fr # 0
+            THEN LET p == PopFrom(K, keys[fr], left)
+                 IN SOut(RArr(<<RBulk(keys[fr]), RBulk(p.x)>>), [S EXCEPT !.dbs[d] = p.K])
+            ELSE IF inTxn THEN SOut(RNilArr, S)
+            ELSE (* the connection blocks: no reply now; obs = what the client eventually received *)
+                 {[r |-> [t |-> "blocks"], dv |-> {},
+                   S |-> [S EXCEPT !.bseq = @ + 1,
+                                   !.conns[c].blocked = [k |-> "yes", keys |-> keys, left |-> left, db |-> d,
+                                                         to |-> ScaledOf(a[Len(a)]), sent |-> tm.t0, got |-> tm.t1,
+                                                         ord |-> S.bseq, r |-> obs]]]}
+
+IsBlocked(cn) == cn.blocked # NotBlocked
+
+-----------------------------------------------------------------------------
 (* WATCH bookkeeping *)
 EntryAt(S, d, k) == IF k \in DOMAIN S.dbs[d] THEN S.dbs[d][k] ELSE [t |-> "absent"]
 
@@ -228,6 +275,8 @@ Exec1(S, c, a, tm, obs, inTxn) ==
                [] name = "UNSUBSCRIBE" -> CmdUNSUBSCRIBE(S, c, a, FALSE)
                [] name = "PUNSUBSCRIBE" -> CmdUNSUBSCRIBE(S, c, a, TRUE)
                [] name = "PUBLISH" -> CmdPUBLISH(S, a)
+               [] name = "BLPOP" -> CmdBPOP(S, c, a, tm, obs, TRUE, inTxn)
+               [] name = "BRPOP" -> CmdBPOP(S, c, a, tm, obs, FALSE, inTxn)
                [] name = "?" -> SFail(S)
                [] OTHER -> SOut(RAny, S)
   IN {[o EXCEPT !.S = MarkWatch(S, o.S, d, name, a, o.r)] : o \in raw}
@@ -246,7 +295,8 @@ AuthGate(S, c, a) ==
 Step(S, c, a, tm, obs) ==
   IF Len(a) = 0 THEN SFail(S)
   ELSE LET name == NameOf(a) cn == S.conns[c] IN
-    IF S.pass # NoPass /\ ~cn.authed THEN AuthGate(S, c, a)
+    IF IsBlocked(cn) THEN {}      \* requests behind a blocking pop wait until the client is served or timed out
+    ELSE IF S.pass # NoPass /\ ~cn.authed THEN AuthGate(S, c, a)
     ELSE IF cn.multi /\ name \notin TxnControl
     THEN (* queued; an unknown command may also be refused at once, which dooms the EXEC *)
          SOut(RSt(L_QUEUED), [S EXCEPT !.conns[c].queue = Append(cn.queue, a)])
@@ -261,6 +311,39 @@ Step(S, c, a, tm, obs) ==
 (* expiry of entries of database d as seen by a request in tm; watchers see the removal *)
 PurgeDb(S, d, tm) ==
   {MarkWatch(S, [S EXCEPT !.dbs[d] = K2], d, "GET", <<>>, RNil) : K2 \in PurgeChoices(S.dbs[d], tm)}
+
+(* the server serves blocked client c with `frame` = <<key, element>> (C13):
+   c waits on that key, the list has that element at the proper end, c blocked first among the waiters of that
+   key (FIFO), and the frame is what the client eventually received; all registrations of c end *)
+Served(S, c, frame) ==
+  IF c \notin DOMAIN S.conns \/ ~IsBlocked(S.conns[c]) THEN {}
+  ELSE LET b == S.conns[c].blocked IN
+    IF ~(frame.t = "arr" /\ Len(frame.v) = 2 /\ frame.v[1].t = "bulk" /\ frame.v[2].t = "bulk") THEN {}
+    ELSE LET key == frame.v[1].v K == S.dbs[b.db] IN
+      IF ~(key \in SeqSet(b.keys) /\ IsT(K, key, "list")) THEN {}
+      ELSE LET p == PopFrom(K, key, b.left)
+               earlier == {x \in DOMAIN S.conns : x # c /\ IsBlocked(S.conns[x])
+                             /\ S.conns[x].blocked.db = b.db /\ key \in SeqSet(S.conns[x].blocked.keys)
+                             /\ S.conns[x].blocked.ord < b.ord}
+               S1 == [S EXCEPT !.dbs[b.db] = p.K, !.conns[c].blocked = NotBlocked]
+           IN IF p.x = frame.v[2].v /\ earlier = {} /\ b.r = frame
+              THEN {MarkWatch(S, S1, b.db, "LPOP", <<L_LPOP, key>>, frame)} ELSE {}
+
+TimeoutSlack == 3000
+TimedOut(S, c) ==
+  IF c \notin DOMAIN S.conns \/ ~IsBlocked(S.conns[c]) THEN {}
+  ELSE LET b == S.conns[c].blocked IN
+    IF b.to # 0 /\ b.r = RNilArr /\ b.got + Eps >= b.sent + b.to /\ b.got <= b.sent + b.to + TimeoutSlack
+    THEN {[S EXCEPT !.conns[c].blocked = NotBlocked]} ELSE {}
+
+(* quiescent point: nobody is left waiting on a key that holds elements *)
+NoneStranded(S) ==
+  \A c \in DOMAIN S.conns : IsBlocked(S.conns[c]) =>
+     \A i \in 1..Len(S.conns[c].blocked.keys) : ~Has(S.dbs[S.conns[c].blocked.db], S.conns[c].blocked.keys[i])
+(* the registrations the server should hold: exactly one per (blocked client, key), in blocking order *)
+BlockedConns(S) == {c \in DOMAIN S.conns : IsBlocked(S.conns[c])}
+ExpectedRegs(S) ==
+  UNION {{<<S.conns[c].blocked.db, k, c>> : k \in SeqSet(S.conns[c].blocked.keys)} : c \in BlockedConns(S)}
 
 (* a connection goes away: its transaction and watches vanish with it *)
 DropConn(S, c) == [S EXCEPT !.conns = [x \in (DOMAIN S.conns) \ {c} |-> S.conns[x]]]
